@@ -75,8 +75,18 @@ func ScaleProfiles(profiles []*profile.Profile) error {
 			ratios[i], _ = Scale(1, st.Unit, sampleType[i].Unit)
 			p.SampleType[i].Unit = sampleType[i].Unit
 		}
-		if err := p.ScaleN(ratios); err != nil {
-			return fmt.Errorf("scale: %v", err)
+		// Scale in place rather than through Profile.ScaleN: ScaleN drops
+		// samples that are zero in the rescaled columns even when they carry
+		// a value in a column whose unit did not change.
+		for _, s := range p.Sample {
+			if len(s.Value) != len(ratios) {
+				return fmt.Errorf("scale: sample has %d values vs. %d types", len(s.Value), len(ratios))
+			}
+			for i, v := range s.Value {
+				if ratios[i] != 1 {
+					s.Value[i] = int64(math.Round(float64(v) * ratios[i]))
+				}
+			}
 		}
 	}
 	return nil
